@@ -379,6 +379,9 @@ func init() {
 		e.assume(e.ts.Ult(v, a[0].(*Term)))
 		return v
 	}
+	// id generators mix a random part with a counter; the random part is fixed (uniqueness comes from the counter)
+	stubs["math/rand.Int63n"] = func(e *Exec, fn *ssa.Function, a []Value) Value { return e.ts.Const(64, 7) }
+	stubs["math/rand.Int31n"] = func(e *Exec, fn *ssa.Function, a []Value) Value { return e.ts.Const(32, 7) }
 	stubs["math/rand.Seed"] = func(e *Exec, fn *ssa.Function, a []Value) Value { return nil }
 	stubs["fmt.Sprintf"] = stubSprintf
 	stubs["fmt.Errorf"] = func(e *Exec, fn *ssa.Function, a []Value) Value {
